@@ -49,6 +49,17 @@ def session(rng, cuts):
             will = (wk, rng.choice([b"will/", b"will/x/", b"will/+/", b"will"]), b"bye%d" % v, rng.randrange(3) == 0)
         s.conn(name, user=rng.choice([b"", b"vic"]), will=will)
         held = []
+        if rng.randrange(5) == 0:
+            # a chain of filters whose ssids fold to one XOR value (one bucket of the per-connection counters),
+            # partly removed (middle, head or tail first) before the connection ends: nothing may stay behind
+            fam = rng.choice([[w + b"/" + w + b"/" for w in WORDS], [b"a/b/x/", b"b/x/a/", b"x/a/b/", b"x/b/a/"], [b"a/", b"a/b/b/", b"a/x/x/", b"a/y/y/"]])
+            fam = rng.sample(fam, rng.choice([3, 4]))
+            for f in fam:
+                s.sub(name, "KA", f)
+                held.append(f)
+            for f in rng.sample(fam, rng.choice([1, 1, 2])) if rng.randrange(4) else [fam[1], fam[0]]:
+                s.unsub(name, "KA", f)
+                held.remove(f)
         for _ in range(rng.choice([0, 1, 2, 4, 6])):
             r = rng.randrange(8)
             if r < 4:
